@@ -195,7 +195,7 @@ def _dup_in_sequence(what: str):
         if what in ("enum-value", "enum-member-name"):
             f, scope = scopes(root, rng)
             w = rng.choice([3, 4, 8, 16, 33])
-            vals = rng.sample(range(0, min(1 << w, 4000)), min(n, 1 << w)) if w > 3 else rng.sample(range(8), min(n, 8))
+            vals = rng.sample(range(0, min(1 << w, 4000)), min(n, (1 << w) - 1)) if w > 3 else rng.sample(range(8), min(n, 7))
         else:
             f, scope = new_message(root, rng)
             vals = rng.sample(range(1, 256), n)
@@ -520,6 +520,38 @@ def _import_cycle(n: int):
     return fn
 
 
+def _import_cycle_spelled(n: int, style: str):
+    """Cycles whose import paths are not the bare file name: `./x`, `sub/../x`, and a cycle that crosses a directory
+    (`root: import "sub/c.bitproto"`, `sub/c: import "../root.bitproto"`) - a detection that compares joined path strings never
+    sees the same string twice."""
+    def fn(root, rng):
+        if root.subdir:
+            return None
+        files = [root]
+        for k in range(n - 1):
+            g = File(fresh("cyc").lower())
+            if style == "subdir" and k == 0:
+                g.subdir = "sub"
+            files.append(g)
+        imps = []
+        for k, g in enumerate(files):
+            nxt = files[(k + 1) % n]
+            imp = Import(nxt, None)
+            if style == "dot" and not g.subdir and not nxt.subdir:
+                imp.path_text = "./" + nxt.filename
+            elif style == "updown" and not g.subdir and not nxt.subdir:
+                imp.path_text = "sub/../" + nxt.filename if rng.random() < 0.7 else "./sub/.././" + nxt.filename
+            imp.parent = g
+            pos = max([i + 1 for i, it in enumerate(g.items) if isinstance(it, Import)] or [0])
+            g.items.insert(pos, imp)
+            imps.append(imp)
+            if g is not root:
+                mm = g.add(Message(fresh("Cy")))
+                mm.add(Field("a", Base("bool"), 1))
+        return Injection(f"import-cycle:{n}:{style}", False, root, imps, files_ok=files)
+    return fn
+
+
 def _dup_import(spelling: str):
     def fn(root, rng):
         lib = File(fresh("duplib").lower())
@@ -693,6 +725,9 @@ _reg("kind:string-constant-in-arithmetic", _nonint_const("arithmetic", "four"))
 _reg("kind:bool-constant-in-arithmetic", _nonint_const("arithmetic", False))
 for _n in (1, 2, 3):
     _reg(f"import-cycle:{_n}", _import_cycle(_n))
+for _n in (1, 2, 3):
+    for _style in ("dot", "updown") + (("subdir",) if _n > 1 else ()):
+        _reg(f"import-cycle:{_n}:{_style}", _import_cycle_spelled(_n, _style))
 _reg("duplicate-import:same", _dup_import("same"))
 _reg("duplicate-import:relative", _dup_import("relative"))
 _reg("diamond-import", same_import_twice_different_files_ok)
